@@ -105,12 +105,20 @@ def draw(detector, slot: int = 0, delay_ms: float = 0.0, n: int = 1, seed=None) 
     _put(detector, slot, float(tot))
 
 
+def det_memory(detector) -> dict:
+    """the dictionary in which models keep state on the detector between calls (`Detector._memory`, the documented
+    place); if a tree names it differently, a dictionary of our own stored on the detector object (copied with it)"""
+    mem = getattr(detector, "_memory", None)
+    if not isinstance(mem, dict):
+        mem = vars(detector).setdefault("_verif_memory", {})
+    return mem
+
+
 def memory(detector, slot: int = 0) -> None:
     """keeps a counter in the detector's memory: pixel[slot] = number of earlier uses seen by this object"""
-    mem = detector._memory  # noqa: SLF001
-    seen = int(mem.get("obsprobes_seen", 0)) if isinstance(mem, dict) else -1
-    if isinstance(mem, dict):
-        mem["obsprobes_seen"] = seen + 1
+    mem = det_memory(detector)
+    seen = int(mem.get("obsprobes_seen", 0))
+    mem["obsprobes_seen"] = seen + 1
     LOG.append(("memory", int(slot), seen))
     _put(detector, slot, float(seen))
 
